@@ -235,6 +235,24 @@ def apply_regime(rng, S, C, regime, box=120):
     return scale_translate(S, k, dx, dy), scale_translate(C, k, dx, dy), (k, dx, dy)
 
 
+def gen_flat_case(rng):
+    """a subject triangle with two nearly horizontal edges (|dx/dy| of a few hundred), a clip triangle whose steep edge
+    crosses them, and a small third triangle; centred on the origin so that negative coordinates occur (truncation
+    toward zero differs there).  Exercises the nearly-horizontal branches of AddNewIntersectNode / TopX that steep
+    random polygons never reach.  Returns (S, C, kinds); general position is decided by the caller's GENPOS filter."""
+    L = rng.range(300, 3000)
+    oy = rng.range(-60, 60)
+    A = [(L, oy), (-L, oy - rng.range(6, 30)), (-L + rng.range(5, 40), oy + rng.range(5, 40))]
+    B = [(rng.range(20, 100), oy + rng.range(3, 9)), (rng.range(-1500, -200), oy - rng.range(40, 90)), (rng.range(200, 500), oy - rng.range(40, 80))]
+    D = [(rng.range(30, 60), oy - rng.range(8, 12)), (rng.range(30, 40), oy - rng.range(28, 34)), (rng.range(12, 24), oy - rng.range(30, 36))]
+    sx = rng.choice([1, -1]); sy = rng.choice([1, -1])
+    f = lambda p: [(sx * x, sy * y) for (x, y) in p]
+    A, B, D = f(A), f(B), f(D)
+    if rng.chance(1, 2):
+        return [A, D], [B], ('flat', 'flat')
+    return [A], [B, D], ('flat', 'flat')
+
+
 def add_scanline_probes(rng, S, C, k=1, nmax=3):
     """Aim at the sweep's handling of a scanline that falls right next to an edge crossing: for up to `nmax` proper
     crossings of input edges add a small triangle far outside the bounding box (so general position is kept and
